@@ -132,6 +132,30 @@ pub fn gen_case(run_seed: u64, _tier: Tier) -> QvbCase {
     QvbCase { init, ops }
 }
 
+/// An iterator whose `size_hint` is legal but unhelpful: the bounds enclose the true length, nothing more.
+/// (An early-stopping adaptor over a huge range looks like this.)
+struct Hinted<I> {
+    inner: I,
+    style: u8,
+}
+
+impl<I: Iterator> Iterator for Hinted<I> {
+    type Item = I::Item;
+    fn next(&mut self) -> Option<I::Item> {
+        self.inner.next()
+    }
+    fn size_hint(&self) -> (usize, Option<usize>) {
+        let (lo, _) = self.inner.size_hint();
+        match self.style {
+            0 => self.inner.size_hint(),
+            1 => (0, None),
+            2 => (0, Some(usize::MAX)),
+            3 => (lo.min(1), Some(1usize << 62)),
+            _ => (0, Some((1usize << 63) + 5)),
+        }
+    }
+}
+
 macro_rules! with_ty {
     ($ty:expr, $vals:expr, |$it:ident| $body:expr) => {
         match $ty {
@@ -245,6 +269,41 @@ fn observe(qv: &QVector, m: &[u8], at: &str, out: &mut RunOut, digest: &mut Dige
             }
         }
     }
+    // skipping iteration: nth / skip / step_by, borrowing and consuming
+    for k in [1usize, 2, n / 2, 255, 256, 257] {
+        if k == 0 || k > n + 1 {
+            continue;
+        }
+        let skip_b = catch(|| qv.iter().skip(k).take(n + 64).collect::<Vec<u8>>());
+        let skip_c = catch(|| qv.clone().into_iter().skip(k).take(n + 64).collect::<Vec<u8>>());
+        let step_b = catch(|| qv.iter().step_by(k).take(n + 64).collect::<Vec<u8>>());
+        let nth_then = catch(|| {
+            let mut it = qv.iter();
+            let first = it.nth(k - 1);
+            (first, it.take(n + 64).collect::<Vec<u8>>())
+        });
+        let e_skip: Vec<u8> = m.iter().skip(k).copied().collect();
+        let e_step: Vec<u8> = m.iter().step_by(k).copied().collect();
+        let e_nth = (m.get(k - 1).copied(), m.iter().skip(k).copied().collect::<Vec<u8>>());
+        for (label, r, e) in [("iter().skip", skip_b, &e_skip), ("into_iter().skip", skip_c, &e_skip), ("iter().step_by", step_b, &e_step)] {
+            match r {
+                Ok(v) => {
+                    if &v != e {
+                        out.violate(sig("skipping_iteration", "wrong_value", "general"), format!("{at}: {label}({k}) over {n} symbols yields {} symbols that differ from the pushed values", v.len()));
+                    }
+                }
+                Err(msg) => out.violate(sig("skipping_iteration", panic_kind(&msg), "general"), format!("{at}: {label}({k}) panicked: {msg}")),
+            }
+        }
+        match nth_then {
+            Ok(v) => {
+                if v != e_nth {
+                    out.violate(sig("skipping_iteration", "wrong_value", "general"), format!("{at}: nth({}) then the rest over {n} symbols gives {:?} + {} symbols, the pushed values give {:?} + {}", k - 1, v.0, v.1.len(), e_nth.0, e_nth.1.len()));
+                }
+            }
+            Err(msg) => out.violate(sig("skipping_iteration", panic_kind(&msg), "general"), format!("{at}: nth({}) panicked: {msg}", k - 1)),
+        }
+    }
     match catch(|| qv.clone().into_iter().collect::<Vec<u8>>()) {
         Ok(v) => {
             if v != m {
@@ -267,7 +326,9 @@ pub fn exec(case: &QvbCase) -> RunOut {
         m = low2(vals);
         out.count("init.VectorFromIter", 1);
         out.count(&format!("extend_ty.{ty:?}"), 1);
-        match catch(|| with_ty!(*ty, vals, |it| it.collect::<QVector>())) {
+        let style = (vals.len() % 5) as u8;
+        out.count(&format!("size_hint_style.{style}"), 1);
+        match catch(|| with_ty!(*ty, vals, |it| Hinted { inner: it, style }.collect::<QVector>())) {
             Ok(qv) => observe(&qv, &m, "QVector::from_iter", &mut out, &mut digest),
             Err(msg) => out.violate(sig("from_iter", panic_kind(&msg), "general"), format!("QVector::from_iter over {} values panicked: {msg}", vals.len())),
         }
@@ -283,7 +344,10 @@ pub fn exec(case: &QvbCase) -> RunOut {
     let built = catch(|| match &case.init {
         QInit::New => QVectorBuilder::new(),
         QInit::WithCapacity(k) => QVectorBuilder::with_capacity(*k),
-        QInit::BuilderFromIter(ty, vals) => with_ty!(*ty, vals, |it| it.collect::<QVectorBuilder>()),
+        QInit::BuilderFromIter(ty, vals) => {
+            let style = (vals.len() % 5) as u8;
+            with_ty!(*ty, vals, |it| Hinted { inner: it, style }.collect::<QVectorBuilder>())
+        }
         QInit::VectorFromIter(..) => unreachable!(),
     });
     if let QInit::BuilderFromIter(_, vals) = &case.init {
@@ -304,7 +368,10 @@ pub fn exec(case: &QvbCase) -> RunOut {
             let mut y = std::mem::take(&mut b);
             match op {
                 QOp::Push(v) => y.push(*v),
-                QOp::Extend(ty, vals) => with_ty!(*ty, vals, |it| y.extend(it)),
+                QOp::Extend(ty, vals) => {
+                    let style = (vals.len() % 5) as u8;
+                    with_ty!(*ty, vals, |it| y.extend(Hinted { inner: it, style }))
+                }
                 QOp::Clone => {
                     let z = y.clone();
                     y = z;
